@@ -184,11 +184,11 @@ fn snap_obs(s: &Snap) -> Vec<String> {
 fn nz(x: i128) -> u128 { if x < 0 { 0 } else { x as u128 } }
 
 pub struct Exec { pub setup: Setup, pub w: W, pub events: Vec<(u64, Ev)>, pub terms: Vec<String>, pub obs: Vec<String>,
-                  n_epochs: u64, n_swapped: u64, n_taken: u64, n_left: u64,
+                  n_epochs: u64, n_swapped: u64, n_taken: u64, n_left: u64, dao0: Option<u128>,
                   /// what strangers sent straight to the distributor so far: kept apart from the distributor balance the model accounts for
                   stray: u128 }
 impl Exec {
-    pub fn new(setup: Setup) -> Exec { let w = build(&setup); Exec { setup, w, events: vec![], terms: vec![], obs: vec![], n_epochs: 0, n_swapped: 0, n_taken: 0, n_left: 0, stray: 0 } }
+    pub fn new(setup: Setup) -> Exec { let w = build(&setup); Exec { setup, w, events: vec![], terms: vec![], obs: vec![], n_epochs: 0, n_swapped: 0, n_taken: 0, n_left: 0, dao0: None, stray: 0 } }
     fn replay_json(&self) -> Value {
         json!({"kind": "fee_pipeline_history", "setup": format!("{:?}", self.setup), "assets": A, "pairs": ["uwhale-uusdc", "uwhale-uatom", "uusdc-ubtc"], "vaults": ["uwhale", "uusdc", "ubtc"],
                "events": self.events.iter().map(|(t, e)| json!({"t": t.to_string(), "ev": format!("{:?}", e)})).collect::<Vec<_>>()})
@@ -296,6 +296,13 @@ impl Exec {
                 if dao_delta > 0 { self.n_taken += 1; if after.hist != dao_delta as i128 { out.monitor_fail("C10", "TakeRateHistory of the new epoch differs from what the DAO received", replay.clone()); } }
                 else if after.hist != -1 { out.monitor_fail("C10", "a take rate is recorded for an epoch in which the DAO received nothing", replay.clone()); }
                 if after.coll[0] != 0 { out.monitor_fail("C10", "the collector kept some of the distribution asset", replay.clone()); }
+                // whole-history ledger (Coq: C10_take_rate_history): the records of ALL epochs so far sum to what the DAO received in total
+                { let d0 = *self.dao0.get_or_insert(before.dao);
+                  let cur = self.w.w.q_current_epoch().id.u64();
+                  let mut sum: u128 = 0;
+                  for id in 1..=cur { if let Ok(c) = self.w.w.app.wrap().query_wasm_smart::<cosmwasm_std::Coin>(&self.w.w.collector, &fc::QueryMsg::TakeRateHistory { epoch_id: Uint64::new(id) }) { sum += c.amount.u128(); } }
+                  out.monitor_evals += 1;
+                  if sum != after.dao - d0 { out.monitor_fail("C10", &format!("the take-rate records of epochs 1..{} sum to {} but the DAO received {} over the history", cur, sum, after.dao - d0), replay.clone()); } }
                 let g = self.setup.grace as usize;
                 let rolled = if before.epochs.len() >= g { nz(before.epochs[g - 1].2) } else { 0 };
                 let new = after.epochs[0];
